@@ -10,6 +10,7 @@ CONSTANTS
   Plus = "logaddexp"
   Times = "add"
   LeafKind = "log"
+  Param = FALSE
   Tag = "psp_model_log"
 INVARIANT Inv_ModelCorrect
 INVARIANT Inv_IntractableOnlyIfIncomparable
